@@ -34,7 +34,7 @@ func (P *Program) newGen(fn *ssa.Function, ct *Contract, tier string) *Gen {
 	return &Gen{P: P, fn: fn, ct: ct, key: funcKey(fn), tier: tier,
 		declared: map[string]bool{}, heapSort: map[string]string{}, vals: map[ssa.Value]Val{},
 		oblCount: map[string]int{}, callees: map[string]bool{}, siteOrd: map[string]int{},
-		fldK: map[string]int{}, verAlloc: map[string]string{}, tagAlloc: map[string]string{}, versions: map[string][]heapVersion{}, heapKind: map[string]string{}}
+		fldK: map[string]int{}, frameTags: map[string]bool{}, frameDone: map[string]bool{}, verAlloc: map[string]string{}, tagAlloc: map[string]string{}, versions: map[string][]heapVersion{}, heapKind: map[string]string{}}
 }
 
 func (P *Program) generate(fn *ssa.Function, ct *Contract, tier string) (g *Gen, unsup string) {
